@@ -53,7 +53,11 @@ ASBUILT = {
   gating entry point; sub-operators on vector **and operator** targets), `gate_array_reuse`, and a `gate_simple`
   family with symbolic positive gauges on every bond (one-site, nearest-neighbour by certificates, renorm; the
   long-range value goal is a numeric-only supplement). Fixed: `tensor_network_apply_op_op` with a sub-operator
-  renaming all site labels of the target (§5).""",
+  renaming all site labels of the target (§5). Final state of the thorough tier (378 obligations, ≈ 140 s): 29 cells whose
+  certificate search never returned a verdict (measured: 400 CPU s and up to 10 GB each — split / reduce-split of a pair on the
+  4-node graph, the chained MPS modes `nonlocal` / `gate_nonlocal` / `gate_with_submpo`, PEPS D = 2 split modes, two non-adjacent
+  `gate_simple` pairs) are now run **numeric-only** (symbolic run skipped with a note; a raising numeric run is inconclusive);
+  before that change the thorough command exited 3, which I had not noticed because the run had been interrupted.""",
 "C07": """* **As built** (`props/c07.py`, 195 quick obligations after the seeded campaign, ≈ 120–170 s, dominated by `param_gate[SU4]`): `constant_gates`, `param_gate[name]` (every
   registered parametrised builder is unitary for all parameter values: half-angle `expi` generators),
   `param_gate_relations`, `exact_simulators[sim,cfg,prog]` (Circuit in 5 `gate_contract` modes + CircuitDense × 10
@@ -85,7 +89,9 @@ ASBUILT = {
   subsets, from_dense, fill functions, arithmetic, apply, overlaps, traces, partial traces, Schmidt routines,
   `compress_exact`, `compress_capped`, `class_compress`, `sweep_compress`, `compress_options`,
   `compress_iterative_numeric` — numeric-only, now also with caps above the methods' internal starting sizes and off
-  their doubling grids). Bounds in `META`. Fixed: 7 defects (§5).""",
+  their doubling grids). Bounds in `META`. Fixed: 7 defects (§5). After the second seeded round: the option *pair*
+  `normalize=True, sweep_reverse=True` for every direct-type method, and `partial_trace_dense_canonical`
+  (`partial_trace_to_dense_canonical` / `local_expectation_canonical` for ascending **and non-ascending** site tuples).""",
 "C10": """* **As built** (`props/c10.py`, 22 quick, ≈ 30 s): `energy_network` (the network DMRG optimises equals
   ⟨ψ|H|ψ⟩ for complex Hermitian MPOs — this is what exposed the transposed-Hamiltonian defect), `moving_environment`
   (every stored environment × excluded part == whole, both directions, segment edge cases), `sweep_energy` (one sweep
@@ -104,7 +110,11 @@ ASBUILT = {
   (`None`) term plus overrides keyed in either orientation, the bookkeeping goals evaluated at every state *yielded by
   `at_times`*, and — through a recorder that tracks the orthogonality centre — "the site renormalised in imaginary
   time is the centre". Fixed: `LocalHamGen.get_gate` pair order, imaginary-time renormalisation after a left sweep
-  (§5).""",
+  (§5). After the second seeded round: `gen_sweeps` — the arbitrary-geometry `TEBDGen` / `TEBDSweepMixin` over three successive
+  sweeps on a chain, a triangle and a star, for every ordering kind (named `sort` / `random` / `random-ungrouped`, explicit tuple /
+  list, callable, dynamic) with and without `second_order_reflect`: the symbolic run replaces the documented extension point
+  `gate` by a recorder (symbolic terms, uninterpreted exponentials: sequence and generators), the numeric run gates the real
+  network and compares dense states; "the caller's ordering object is not modified".""",
 "C13": """* **As built** (`props/c13.py`, sub-agent + review; 154 quick, ≈ 50–60 s): families `exact_routes`,
   `cluster_routes`, `loop_expansion_routes`, `mps_env_and_exact_routes`, `mps_canonical_routes`, `peps_2x2_routes`,
   `peps_boundary_routes`, `peps3d_routes`, `compressed_contraction_routes`, `norms`, …; ratios are compared
